@@ -43,6 +43,7 @@ class Raises:
     self._busy: typing.Set[str] = set()
     self.model_elem = ix.cls("ttconv.model:ContentElement")
     self.model_doc = ix.cls("ttconv.model:ContentDocument")
+    self.nonzero: typing.Set[typing.Tuple[str, str]] = set()   # (function, name) facts established by a supporting rule
 
   # -- public --------------------------------------------------------------------------
   def of_func(self, f: FuncInfo) -> typing.Dict[str, str]:
@@ -141,6 +142,8 @@ class Raises:
             out.setdefault("IndexError", w(n))
       elif isinstance(n, ast.BinOp) and isinstance(n.op, (ast.Div, ast.FloorDiv, ast.Mod)):
         if isinstance(n.right, (ast.Name, ast.Attribute)) and self.ce.try_ev(f.module, n.right, f.cls, default=None) is None:
+          if isinstance(n.right, ast.Name) and (f.qualname, n.right.id) in self.nonzero:
+            continue
           if not (isinstance(n.right, ast.Name) and self._assigned_nonzero_const(f, n.right.id)):
             if isinstance(n.op, ast.Mod) and isinstance(n.left, (ast.Constant, ast.JoinedStr)):
               continue
@@ -202,13 +205,15 @@ class Raises:
         out.setdefault("ValueError", w)
       if len(args) == 2:
         d = self.ce.try_ev(f.module, args[1], f.cls, default=None)
-        if not (isinstance(d, int) and d != 0) and not self._nonzero_attr(f, args[1]):
+        if not (isinstance(d, int) and d != 0) and not self._guarded_nonzero(c, args[1]):
           out.setdefault("ZeroDivisionError", w)
       return out
     r = self.ix.resolve(f.module, c.func, cls=f.cls, func=f) if isinstance(c.func, (ast.Name, ast.Attribute)) else None
     if isinstance(r, ClassInfo):
       if self.ix.is_enum(r):
         out.setdefault("ValueError", w)
+        return out
+      if r.is_dataclass and self._ctor_constant_ok(f, r, c):
         return out
       for m in ("__post_init__", "__init__"):
         init = self.ix.lookup_method(r, m)
@@ -255,6 +260,31 @@ class Raises:
           self._merge(out, self.of_func(sp.methods["to_model"]))
     return out
 
+  def _ctor_constant_ok(self, f, r: ClassInfo, c: ast.Call) -> bool:
+    """A validating dataclass constructed from constants: evaluate its __post_init__ on them."""
+    from ..consteval import FuncEval, Raised
+    pi = r.methods.get("__post_init__")
+    if pi is None:
+      return True
+    fields = [n for n in r.field_order if n in r.ann and n not in r.nested]
+    env = {}
+    try:
+      for name in fields:
+        if name in r.assigns:
+          env[f"self.{name}"] = self.ce.ev(r.module, r.assigns[name], r)
+      for name, a in zip(fields, c.args):
+        env[f"self.{name}"] = self.ce.ev(f.module, a, f.cls)
+      for kw in c.keywords:
+        env[f"self.{kw.arg}"] = self.ce.ev(f.module, kw.value, f.cls)
+      if len(env) < len(fields):
+        return False
+      FuncEval(self.ix).call(pi, env)
+      return True
+    except Raised:
+      return False
+    except NotConst:
+      return False
+
   def _is_numeric_name(self, f, a) -> bool:
     if isinstance(a, ast.Name):
       t = self.ty.env(f).get(a.id) if isinstance(f, FuncInfo) else None
@@ -269,7 +299,19 @@ class Raises:
               return True
     return False
 
-  def _nonzero_attr(self, f, e) -> bool:
+  @staticmethod
+  def _guarded_nonzero(node, e) -> bool:
+    """`e` is tested `> 0` / `!= 0` by an enclosing if / conditional expression that contains node in its true branch."""
+    t = unparse(e).replace(" ", "")
+    cur, par = node, parent(node)
+    while par is not None and not isinstance(par, (ast.FunctionDef, ast.AsyncFunctionDef)):
+      if isinstance(par, (ast.If, ast.IfExp)):
+        body = par.body if isinstance(par.body, list) else [par.body]
+        if any(cur is b or any(cur is y for y in ast.walk(b)) for b in body):
+          tt = unparse(par.test).replace(" ", "")
+          if f"{t}>0" in tt or f"{t}!=0" in tt or f"0<{t}" in tt:
+            return True
+      cur, par = par, parent(par)
     return False
 
   # -- IDX -----------------------------------------------------------------------------
